@@ -945,28 +945,52 @@ def r02g(model, ctx):
         good = [b for b in found if pmatch("(1 << _V_HI) - (1 << lhs_start)", b[1]) is not None
                 and pmatch("rhs << lhs_start", b[2]) is not None and unparse(b[0]).endswith(".next")]
         ok = ok and bool(good)
-    fwq = model.func(f"{PYSIM}::_PyMemoryState.write")
-    seed_ok = any(isinstance(s_, ast.If) and unparse(s_.test) == "addr not in self.write_queue" and
-                  any(unparse(x) == "self.write_queue[addr] = self.data[addr]" for x in s_.body) for s_ in ast.walk(fwq))
-    ctx.check(seed_ok, R, "_PyMemoryState.write:queue-seeded", "write_queue[addr] seeded from data[addr] on first write",
-              "the first write to a row in a delta cycle must seed write_queue[addr] from data[addr] before merging",
-              f"{PYSIM}:{fwq.lineno}")
     ctx.check(ok, R, "_eval_assign_inner:Signal", "next & ~mask | (rhs << start) & mask, mask = (1<<stop)-(1<<start)",
               "testbench signal write must merge (old & ~mask) | ((rhs << lhs_start) & mask) with one mask built from "
               "lhs_start/lhs_stop", f"{PYEVAL}:{lf.lineno}")
 
-    for ref, label, base in [(f"{PYSIM}::_PySignalState.update", "_PySignalState.update", "self.next"),
-                             (f"{PYSIM}::_PyMemoryState.write", "_PyMemoryState.write", "self.write_queue[addr]")]:
-        f2 = model.func(ref)
-        found = masked_merges(f2)
-        ok = len(found) >= 1
-        okb = ok and all(unparse(b[0]) == base for b in found)
-        ctx.check(okb, R, label + ":base", f"the unmasked bits are kept from the *pending* value {base}",
-                  f"{label} must merge into the pending value `{base}` (so that several partial writes within one delta "
-                  f"cycle accumulate); found base {[unparse(b[0]) for b in found]}", f"{PYSIM}:{f2.lineno}")
-        ctx.check(ok, R, label, f"merge {unparse(found[0][0])} & ~{unparse(found[0][1])} | {unparse(found[0][2])} & M" if ok else "",
-                  f"{label} must merge with complementary polarity of one mask: old & ~mask | value & mask",
-                  f"{PYSIM}:{f2.lineno}")
+    # pending-value merges of the simulator state objects, compared as whole-method summaries with reference semantics
+    from ..engine import refsem
+    for ref, label, refsrc, why in [
+        (f"{PYSIM}::_PySignalState.update", "_PySignalState.update", REF_SIGNAL_UPDATE,
+         "A partial write must merge into the *pending* value self.next with complementary polarity of one mask, so that "
+         "several partial writes within one delta cycle accumulate."),
+        (f"{PYSIM}::_PyMemoryState.write", "_PyMemoryState.write", REF_MEMORY_WRITE,
+         "The first write to a row in a delta cycle seeds write_queue[addr] from data[addr]; a masked write merges into that "
+         "pending row; signed rows are folded at bit width-1; addresses beyond the depth change nothing."),
+    ]:
+        f2, paths = refsem.method_paths(model, ref)
+        refsem.compare(ctx, R, label, f"{PYSIM}:{f2.lineno}", label, paths, [refsrc], why=why,
+                       fact="method summary equals the reference semantics (pending-value merge)")
+
+
+REF_SIGNAL_UPDATE = """
+value = (self.next & ~mask) | (value & mask)
+if self.next != value:
+    self.next = value
+    self.pending.add(self)
+"""
+
+REF_MEMORY_WRITE = """
+if addr in range(self.memory.depth):
+    if addr not in self.write_queue:
+        self.write_queue[addr] = self.data[addr]
+    if mask is not None:
+        value = (value & mask) | (self.write_queue[addr] & ~mask)
+    if self.shape.signed:
+        if value & (1 << (self.shape.width - 1)):
+            value |= -1 << self.shape.width
+        else:
+            value &= (1 << self.shape.width) - 1
+    self.write_queue[addr] = value
+    self.pending.add(self)
+"""
+
+REF_MEMORY_READ = """
+if addr in range(self.memory.depth):
+    return self.data[addr]
+return 0
+"""
 
 
 # ----------------------------------------------------------------------------------------------- R-02f
